@@ -366,3 +366,446 @@ def c08f(chk):
     ok = "sfs_core::input::site::reader::Reader::current_contig" in srcs and "sfs_core::input::site::reader::Reader::current_position" in srcs
     chk.ob("C08.f", "Runner::run/Error-arm-names-contig-and-position", ok, f.loc(arms["Error"]), "the error must display current_contig() and current_position() (sources %s)" % sorted(srcs))
     RC.no_partial_output(chk, "C08.f", RC.CREATE_RUN, RC.RUNNER_RUN, [RC.WRITE_STDOUT])
+
+
+# ====================================================================================
+# C09
+# ====================================================================================
+SAMPLE_MAP = "sfs_core::input::sample::Map"
+POP_MAP = "sfs_core::input::sample::population::Map"
+POP_ID = "sfs_core::input::sample::population::Id"
+MAP_FROM_ITER = "<sfs_core::input::sample::Map as core::iter::traits::collect::FromIterator<(S, P)>>::from_iter"
+ORDER_PRESERVING = {"from_iter", "get", "get_index", "get_index_of", "insert_full", "is_empty", "len", "keys", "values", "iter", "contains_key", "contains"}
+ORDER_ADAPTORS_BAD = ("rev", "skip", "step_by", "filter", "take", "sort", "chain", "cycle", "flat_map", "peekable", "zip")
+
+
+def check_C09(chk):
+    chk.explanation = (
+        "Structural clauses of C09: (a) the sample map is an IndexMap and the population map an IndexSet (insertion-ordered); (b) only "
+        "order-preserving methods are ever called on them; (c) a population id is the insertion index (insert_full().0 / get_index_of) and "
+        "get_or_insert = get().unwrap_or_else(insert); (d) sample::Map is constructed only in FromIterator::from_iter, which assigns "
+        "population ids by calling get_or_insert once per entry in iteration order, and every sample-list source funnels into it; (e) per-record "
+        "lookups index counts/totals by the population id looked up by sample *name* (no column counter); (f) Map::shape walks ids 0..len; "
+        "(g) empty-map and unknown-sample errors dominate the construction of the site reader.")
+    chk.not_decided = "end-to-end invariance under permutations of columns/list entries (a relation between runs); clap's splitting of the --samples value"
+    c09ab(chk)
+    c09c(chk)
+    c09d(chk)
+    c09e(chk)
+    c09f(chk)
+    c09g(chk)
+    for r, n in (("C09.a", 2), ("C09.b", 9), ("C09.c", 3), ("C09.d", 5), ("C09.e", 3), ("C09.f", 2), ("C09.g", 2)):
+        chk.floor(r, n)
+
+
+def c09ab(chk):
+    prog = chk.prog
+    for adt, want in ((SAMPLE_MAP, "indexmap::map::IndexMap<sfs_core::input::sample::Sample, sfs_core::input::sample::population::Id>"),
+                      (POP_MAP, "indexmap::set::IndexSet<sfs_core::input::sample::population::Population>")):
+        a = prog.adts.get(adt)
+        if a is None:
+            chk.fail("C09.a", "%s/ANCHOR-MISSING" % adt, "", "ADT not found")
+            continue
+        tys = [f["ty"] for f in a["variants"][0]["fields"]]
+        chk.ob("C09.a", "%s/container" % adt.split("input::")[-1], tys == [want], "%s:%d" % (a["span"]["file"], a["span"]["line"]),
+               "the map must be the insertion-ordered container %s (found %s); a HashMap/BTreeMap changes axis order silently" % (want, tys))
+    # every call that touches an IndexMap / IndexSet value
+    for f in prog.fn_list:
+        if f.derived:
+            continue
+        for b, t in f.calls():
+            c = t["callee"]
+            p = c.get("path") or ""
+            st_ = (c.get("self_ty") or "").lstrip("&").replace("mut ", "")
+            a0 = (c.get("args") or [""])[0].lstrip("&").replace("mut ", "")
+            recv = st_ if st_.startswith("indexmap::") else (a0 if a0.startswith("indexmap::") else "")
+            if p.startswith("indexmap::map::IndexMap::") or p.startswith("indexmap::set::IndexSet::"):
+                recv = c.get("full") or ""
+            elif not (recv.startswith("indexmap::map::IndexMap<") or recv.startswith("indexmap::set::IndexSet<")):
+                continue
+            # calls on noodles' own IndexSet (header sample names) are not our maps
+            ours = ("sfs_core::input::sample::Sample, sfs_core::input::sample::population::Id" in recv) or ("sfs_core::input::sample::population::Population" in recv)
+            if not ours:
+                continue
+            chk.saw_calls()
+            name = p.split("::")[-1]
+            chk.ob("C09.b", "%s/%s" % (f.path.split("sfs_core::input::")[-1], name), name in ORDER_PRESERVING, f.loc(b),
+                   "method `%s` on the sample/population map is%s on the reviewed order-preserving list %s" % (name, "" if name in ORDER_PRESERVING else " NOT", sorted(ORDER_PRESERVING)))
+
+
+def c09c(chk):
+    f = chk.fn(POP_MAP + "::insert")
+    if f is not None:
+        ok = False
+        why = "Id(..) not built from insert_full(..).0"
+        for b, i, p, rv, s in f.assigns():
+            if p[0] == 0 and rv["k"] == "aggregate" and rv.get("adt") == POP_ID:
+                o = rv["ops"][0]
+                l = op_local(o)
+                d = f.single_def(f.copy_root(l)) if l is not None else None
+                if d and d[0] == "assign" and d[3]["k"] == "use":
+                    pl = op_place(d[3]["op"])
+                    if pl and pl[1] == (("field", 0, "0", None),) or (pl and len(pl[1]) == 1 and pl[1][0][0] == "field" and pl[1][0][1] == 0):
+                        dd = f.single_def(pl[0])
+                        if dd and dd[0] == "call" and callee_is(dd[2]["callee"], "indexmap::set::IndexSet::<T, S>::insert_full"):
+                            tgt = an.arg_pointee(f, dd[2], 0)
+                            ok = tgt is not None and an.self_field(tgt) == "0"
+                            why = "Id(insert_full(self.0, name).0)"
+        chk.ob("C09.c", "population::Map::insert/id=insertion-index", ok, f.loc(), why)
+    f = chk.fn(POP_MAP + "::get")
+    if f is not None:
+        ok = False
+        for b, t in f.calls():
+            if callee_is(t["callee"], N.OPT_MAP):
+                fa = t["args"][1]
+                l = op_local(t["args"][0])
+                d = f.single_def(f.copy_root(l)) if l is not None else None
+                if fa["k"] == "const" and fa.get("fn") == POP_ID and d and d[0] == "call" and callee_is(d[2]["callee"], "indexmap::set::IndexSet::<T, S>::get_index_of"):
+                    ok = True
+        chk.ob("C09.c", "population::Map::get/id=get_index_of", ok, f.loc(), "get must be get_index_of(name).map(Id)")
+    f = chk.fn(POP_MAP + "::get_or_insert")
+    if f is not None:
+        gets = an.calls(f, POP_MAP + "::get")
+        uoe = an.calls(f, "core::option::Option::<T>::unwrap_or_else")
+        ok = False
+        if len(gets) == 1 and len(uoe) == 1:
+            recv = op_local(uoe[0][1]["args"][0])
+            cl = None
+            l = op_local(uoe[0][1]["args"][1])
+            d = f.single_def(l) if l is not None else None
+            if d and d[0] == "assign" and d[3]["k"] == "aggregate" and d[3]["akind"] == "closure":
+                cl = chk.prog.fn(d[3]["closure"])
+            ins = cl is not None and len(an.calls(cl, POP_MAP + "::insert")) == 1 and len(list(cl.calls())) == 1
+            same_name = _param_root_owned(f, gets[0][1]["args"][1]) == 2
+            ok = recv is not None and f.copy_root(recv) == an.call_dest_local(gets[0][1]) and ins and same_name
+        chk.ob("C09.c", "population::Map::get_or_insert=get.unwrap_or_else(insert)", ok, f.loc(),
+               "an existing label keeps its id, a new label gets the next insertion index")
+
+
+def _param_root_owned(f, op):
+    l = op_local(op)
+    if l is None:
+        return None
+    r = f.resolve_ptr(l)
+    if r is not None and not r[1]:
+        return r[0]
+    if r is not None and r[1] == (("deref",),):
+        return r[0]
+    return f.copy_root(l)
+
+
+def c09d(chk):
+    prog = chk.prog
+    ctors = []
+    for f in prog.fn_list:
+        if f.derived:
+            continue
+        for b, i, p, rv, s in f.assigns():
+            if rv["k"] == "aggregate" and rv["akind"] == "adt" and rv["adt"] == SAMPLE_MAP:
+                ctors.append(f.path)
+    chk.ob("C09.d", "sample::Map/constructed-only-in-from_iter", sorted(set(ctors)) == [MAP_FROM_ITER], "",
+           "sample::Map must only be built by FromIterator::from_iter (found %s)" % sorted(set(ctors)))
+    f = chk.fn(MAP_FROM_ITER)
+    if f is not None:
+        # IndexMap::from_iter(iter.into_iter().map(closure)) with no reordering adaptor
+        fi = [(b, t) for b, t in f.calls() if callee_is(t["callee"], N.FROM_ITER)]
+        ok = False
+        why = "IndexMap::from_iter(..map(closure)) not recognised"
+        if len(fi) == 1:
+            sl, info = f.slice_locals(fi[0][1]["args"][0])
+            nm = [x[1]["callee"].get("path") or "" for x in info["calls"]]
+            adapt = [n.split("::")[-1] for n in nm if n.startswith("core::iter::")]
+            ok = sorted(adapt) == ["into_iter", "map"]
+            why = "adaptors between the input and IndexMap::from_iter: %s" % adapt
+        chk.ob("C09.d", "Map::from_iter/input-order-preserved", ok, f.loc(), why)
+        cls = prog.closures_of(MAP_FROM_ITER)
+        ok = False
+        if len(cls) == 1:
+            c = cls[0]
+            chk.fns_analysed.add(c.path)
+            g = an.calls(c, POP_MAP + "::get_or_insert")
+            # the population argument derives from tuple field 1, the sample from field 0; result tuple (sample, id)
+            if len(g) == 1 and not list(c.switches()):
+                sl, info = c.slice_locals(g[0][1]["args"][1])
+                from1 = any(d[0] == "assign" and d[3]["k"] == "use" and op_place(d[3]["op"]) and op_place(d[3]["op"])[0] == 2 and [e[:2] for e in op_place(d[3]["op"])[1][:1]] == [("field", 1)] for l in sl for d in c.defs.get(l, []))
+                ret = [d for d in c.defs.get(0, []) if d[0] == "assign" and d[3]["k"] == "aggregate"]
+                ok = from1 and len(ret) == 1 and op_local(ret[0][3]["ops"][1]) is not None and c.copy_root(op_local(ret[0][3]["ops"][1])) == an.call_dest_local(g[0][1])
+        chk.ob("C09.d", "Map::from_iter::closure/one-get_or_insert-per-entry", ok, f.loc(), "each (sample, label) entry calls get_or_insert(label) exactly once, unconditionally, and pairs the sample with that id")
+    # funnels
+    for path, how in ((SAMPLE_MAP + "::from_all", "from_iter"), (SAMPLE_MAP + "::from_str", "collect"), (SAMPLE_MAP + "::from_reader", "from_str"), (SAMPLE_MAP + "::from_path", "from_reader")):
+        f = prog.fn(path)
+        if f is None:
+            chk.fail("C09.d", "funnel/%s/ANCHOR-MISSING" % path, "", "not found")
+            continue
+        chk.fns_analysed.add(path)
+        ok = False
+        for b, t in f.calls():
+            c = t["callee"]
+            if how == "from_iter" and callee_is(c, MAP_FROM_ITER):
+                ok = True
+            if how == "collect" and callee_is(c, N.COLLECT) and any(a == SAMPLE_MAP for a in c.get("args", [])):
+                ok = True
+            if how == "from_str" and callee_is(c, SAMPLE_MAP + "::from_str"):
+                ok = True
+            for a in t["args"]:
+                if how == "from_reader" and a["k"] == "const" and a.get("fn") == SAMPLE_MAP + "::from_reader":
+                    ok = True
+        chk.ob("C09.d", "funnel/%s->%s" % (path.split("::")[-1], how), ok, f.loc(), "%s must build the map through %s" % (path.split("::")[-1], how))
+    b = chk.fn(RC.SITE_BUILD)
+    if b is not None:
+        ok = len(an.calls(b, MAP_FROM_ITER)) == 1 and len(an.calls(b, SAMPLE_MAP + "::from_path")) == 1 and len(an.calls(b, SAMPLE_MAP + "::from_all")) == 1
+        chk.ob("C09.d", "Builder::build/three-sources-one-funnel", ok, b.loc(), "--samples -> from_iter, --samples-file -> from_path, default -> from_all")
+    # from_str: line order preserved, label = text after the first tab
+    f = prog.fn(SAMPLE_MAP + "::from_str")
+    if f is not None:
+        coll = [(b2, t) for b2, t in f.calls() if callee_is(t["callee"], N.COLLECT)]
+        ok = False
+        if len(coll) == 1:
+            sl, info = f.slice_locals(coll[0][1]["args"][0])
+            adapt = [(x[1]["callee"].get("path") or "").split("::")[-1] for x in info["calls"]]
+            ok = sorted(adapt) == ["lines", "map"]
+        chk.ob("C09.d", "Map::from_str/lines-in-file-order", ok, f.loc(), "samples file is read line by line in order (adaptors: %s)" % (adapt if len(coll) == 1 else "?"))
+
+
+def c09e(chk):
+    rs = RC.ReadSite(chk)
+    if not rs.ok:
+        return
+    f = rs.fn
+    Ld = an.call_dest_local(f.term(rs.L_bb))
+    for b, fld, t in rs.index_mut_sites():
+        if fld not in ("counts", "totals"):
+            continue
+        sl, info = f.slice_locals(t["args"][1])
+        from_L = Ld in sl
+        names = [x[1]["callee"].get("path") or "" for x in info["calls"]]
+        counters = [n for n in names if n.endswith("::enumerate") or n.endswith("::position")]
+        chk.ob("C09.e", "read_site/index(%s)=population-id-by-name" % fld, from_L and not counters and not info["binops"], f.loc(b),
+               "the axis index must be the id returned by get_population_id(sample) (from lookup=%s, counters=%s, arithmetic=%d)" % (from_L, counters, len(info["binops"])))
+    # the sample handed to the lookup is the column's name from reader.samples(), zipped with the genotypes
+    Lt = f.term(rs.L_bb)
+    sl, info = f.slice_locals(Lt["args"][1])
+    names = [x[1]["callee"].get("path") or "" for x in info["calls"]]
+    ok = "sfs_core::input::genotype::reader::Reader::samples" in names and N.ZIP in names and not any(n.endswith("::enumerate") for n in names)
+    chk.ob("C09.e", "read_site/lookup-key=column-sample-name", ok, f.loc(rs.L_bb), "get_population_id receives the zipped item of reader.samples() (calls in slice: %s)" % sorted({n.split('::')[-1] for n in names}))
+    g = chk.fn(RC.GET_POP)
+    if g is not None:
+        ok = len(an.calls(g, "indexmap::map::IndexMap::<K, V, S>::get")) == 1
+        chk.ob("C09.e", "get_population_id=IndexMap::get(sample)", ok, g.loc(), "lookup by key (sample name), not by position")
+
+
+def c09f(chk):
+    f = chk.fn(RC.MAP_SHAPE)
+    if f is None:
+        return
+    maps = an.calls(f, N.MAP)
+    ok = False
+    why = "map over a range not recognised"
+    if len(maps) == 1:
+        l = op_local(maps[0][1]["args"][0])
+        d = f.single_def(f.copy_root(l)) if l is not None else None
+        if d and d[0] == "assign" and d[3]["k"] == "aggregate" and d[3].get("adt") == "core::ops::range::Range":
+            lo = const_val(d[3]["ops"][0])
+            hi = d[3]["ops"][1]
+            hl = op_local(hi)
+            hd = f.single_def(f.copy_root(hl)) if hl is not None else None
+            ok = lo == 0 and hd is not None and hd[0] == "call" and (hd[2]["callee"].get("path") or "").endswith("::len")
+            why = "Range(%s, %s)" % (lo, callee_name(hd[2]["callee"]) if hd and hd[0] == "call" else "?")
+    chk.ob("C09.f", "Map::shape/ids-0..len-in-order", ok, f.loc(), "axes are produced for population ids 0..len in increasing order: " + why)
+    c = chk.prog.fn(RC.MAP_SHAPE + "::{closure#0}")
+    if c is not None:
+        ok = False
+        for b, i, p, rv, s in c.assigns():
+            if rv["k"] == "aggregate" and rv.get("adt") == POP_ID:
+                l = op_local(rv["ops"][0])
+                ok = l is not None and c.copy_root(l) == 2
+        gets = [t for b, t in c.calls() if (t["callee"].get("path") or "") == "std::collections::hash::map::HashMap::<K, V, S, A>::get"]
+        chk.ob("C09.f", "Map::shape::closure/looks-up-Id(param)", ok and len(gets) == 1, c.loc(), "axis j is the size of population id j (HashMap read by key, never iterated)")
+
+
+def c09g(chk):
+    f = chk.fn(RC.SITE_BUILD)
+    if f is None:
+        return
+    nu = an.calls(f, "sfs_core::input::site::reader::Reader::new_unchecked")
+    if len(nu) != 1:
+        chk.fail("C09.g", "Builder::build/new_unchecked", f.loc(), "expected one Reader::new_unchecked call")
+        return
+    nb = nu[0][0]
+    # empty map
+    ie = an.calls(f, SAMPLE_MAP + "::is_empty")
+    ok = False
+    for b, t in ie:
+        for sb, s in an.switches_on_call_result(f, b):
+            st = f.term(sb)
+            ok = ok or an.dominated_by_edge(f, sb, an.edge_target(st, 0), nb)
+    chk.ob("C09.g", "Builder::build/empty-map-rejected", ok, f.loc(nb), "Reader::new_unchecked must be dominated by sample_map.is_empty() == false")
+    fd = [(b, t) for b, t in f.calls() if callee_is(t["callee"], "core::iter::traits::iterator::Iterator::find") and any("indexmap::map::iter::Keys" in a for a in t["callee"].get("args", []))]
+    ok = False
+    for b, t in fd:
+        for sb, s in an.switches_on_call_result(f, b):
+            st = f.term(sb)
+            ok = ok or an.dominated_by_edge(f, sb, an.edge_target(st, 0), nb)
+    cl_ok = False
+    for c in chk.prog.closures_of(RC.SITE_BUILD):
+        cs = [t for b, t in c.calls() if (t["callee"].get("path") or "") == "std::collections::hash::set::HashSet::<T, S, A>::contains"]
+        nots = [rv for _, _, _, rv, _ in c.assigns() if rv["k"] == "unop" and rv["op"] == "Not"]
+        if len(cs) == 1 and len(nots) == 1 and len(list(c.calls())) == 1 and not list(c.switches()):
+            d0 = [d for d in c.defs.get(0, []) if d[0] == "assign"]
+            if len(d0) == 1 and d0[0][3]["k"] == "unop" and d0[0][3]["op"] == "Not":
+                cl_ok = True
+    chk.ob("C09.g", "Builder::build/unknown-sample-rejected", ok and cl_ok, f.loc(nb),
+           "Reader::new_unchecked must be dominated by `no listed sample is missing from the input` (find(|s| !reader_samples.contains(s)) == None)")
+
+
+# ====================================================================================
+# C12
+# ====================================================================================
+HASH_ALLOWED = {"new", "with_capacity", "from_iter", "entry", "or_insert", "get", "contains", "contains_key", "insert", "len", "is_empty", "default"}
+AMBIENT_PREFIXES = ("std::env::", "std::time::", "std::thread::", "std::process::id", "std::hash::random::", "std::collections::hash::map::RandomState", "std::io::stdio::IsTerminal", "std::net::", "std::os::")
+GENO_BUILDER = "sfs_core::input::genotype::reader::builder::Builder"
+
+
+def check_C12(chk):
+    chk.explanation = (
+        "Structural clauses of C12: (a) hash iteration order is never observed: only keyed/size methods are called on HashMap/HashSet values; "
+        "(b) ambient inputs (env, time, threads, pid, random state, is_terminal) are used only at the reviewed sites that decide whether to "
+        "refuse the run; (c) `--threads` flows only into the BGZF reader's worker count and decides no branch; (d) file and stdin, and the four "
+        "(compression x format) combinations, share one construction funnel ending in the vcf/bcf readers, which share one classifier (C08.d).")
+    chk.not_decided = ("noodles' multithreaded BGZF reader delivering blocks in order; byte identity across containers; the dependence of format "
+                       "sniffing on the first stdin chunk is reported under C18.c")
+    c12a(chk)
+    c12b(chk)
+    c12c(chk)
+    c12d(chk)
+    for r, n in (("C12.a", 7), ("C12.b", 3), ("C12.c", 3), ("C12.d", 5)):
+        chk.floor(r, n)
+
+
+def c12a(chk):
+    prog = chk.prog
+    n = 0
+    for f in prog.fn_list:
+        if f.derived:
+            continue
+        for b, t in f.calls():
+            c = t["callee"]
+            p = c.get("path") or ""
+            blob = " ".join([p, c.get("self_ty") or ""] + c.get("args", []))
+            if "std::collections::hash::" not in blob:
+                continue
+            n += 1
+            chk.saw_calls()
+            name = p.split("::")[-1]
+            chk.ob("C12.a", "%s/%s" % (f.path.split("sfs_core::")[-1], name), name in HASH_ALLOWED, f.loc(b),
+                   "`%s` on a HashMap/HashSet: only keyed and size methods %s keep the result independent of the hash seed (iteration, Debug, extend, drain, retain are order-observing)" % (name, sorted(HASH_ALLOWED)))
+        # hash containers handed to formatting
+        for b, i, p, rv, s in f.assigns():
+            pass
+    # positive control: the matcher sees the keyed uses (floor) and would see iteration: IndexMap::values is matched by the same blob logic in C09.b
+    # locals of hash type that are moved into a `for` loop show up as IntoIterator::into_iter with the hash type in generic args (covered above)
+
+
+def c12b(chk):
+    prog = chk.prog
+    reviewed = {
+        ("sfs_core::input::Input::new", "std::env::var"): "reads SFS_ALLOW_STDIN only to decide whether to refuse the run",
+        ("sfs_core::input::Input::new", "std::io::stdio::IsTerminal::is_terminal"): "decides only whether the run is refused (file+stdin / nothing)",
+    }
+    seen = {}
+    for f in prog.fn_list:
+        if f.derived:
+            continue
+        for b, t in f.calls():
+            p = t["callee"].get("path") or ""
+            if p.startswith(AMBIENT_PREFIXES):
+                key = (f.path, p)
+                seen[key] = seen.get(key, 0) + 1
+                chk.saw_calls()
+                chk.ob("C12.b", "ambient/%s@%s" % (p, f.path.split("::", 1)[-1]), key in reviewed, f.loc(b),
+                       reviewed.get(key, "UNREVIEWED ambient input: output could depend on the environment / time / scheduling"))
+    # the env key is the documented constant and its value is only tested with is_err
+    f = chk.fn("sfs_core::input::Input::new")
+    if f is not None:
+        ev = an.calls(f, "std::env::var")
+        ok = False
+        if len(ev) == 1:
+            k = an.const_of(f, ev[0][1]["args"][0])
+            d = an.call_dest_local(ev[0][1])
+            uses = [callee_name(t["callee"]) for b, t in f.calls() if any(op_local(a) is not None and (f.resolve_ptr(op_local(a)) or (None,))[0] == d or op_local(a) == d for a in t["args"])]
+            ok = bool(k) and (k.get("item") == "sfs_core::input::Input::ENV_KEY_DISABLE_CHECK" or (k.get("val") or {}).get("str") == "SFS_ALLOW_STDIN") and uses == ["core::result::Result::<T, E>::is_err"]
+        chk.ob("C12.b", "Input::new/env-var-only-tested-for-presence", ok, f.loc(), "env::var(ENV_KEY_DISABLE_CHECK) may only flow into is_err()")
+        # both outcomes besides refusal construct the same Input: new_unchecked(input)
+        nu = an.calls(f, "sfs_core::input::Input::new_unchecked")
+        chk.ob("C12.b", "Input::new/accepts-via-new_unchecked", len(nu) == 1, f.loc(), "the accepted case is Input::new_unchecked(input), independent of the environment")
+
+
+def c12c(chk):
+    prog = chk.prog
+    # Create.threads: read once, passed to set_threads
+    reads = RC.field_reads(prog, "sfs::create::Create", "threads")
+    reads = [(f, b) for f, b, w in reads if not f.derived and "clap_builder" not in f.path]
+    ok = len(reads) == 1 and reads[0][0].path == RC.CREATE_RUN
+    chk.ob("C12.c", "Create.threads/read-once-in-Create::run", ok, "", "reads: %s" % [(f.path, f.loc(b)) for f, b in reads])
+    f = chk.fn(RC.CREATE_RUN)
+    if f is not None:
+        st = an.calls(f, GENO_BUILDER + "::set_threads")
+        ok = False
+        if len(st) == 1:
+            sl, info = f.slice_locals(st[0][1]["args"][1], through_calls=False)
+            ok = ("sfs::create::Create", "threads") in info["fields"]
+        chk.ob("C12.c", "Create::run/threads->set_threads", ok, f.loc(), "self.threads is handed to genotype::reader::Builder::set_threads")
+    # Builder.threads: written by set_threads/default, read once as the argument of set_worker_count; never switched on
+    breads = [(f, b) for f, b, w in RC.field_reads(prog, GENO_BUILDER, "threads") if not f.derived]
+    where = sorted({f.path for f, b in breads})
+    chk.ob("C12.c", "Builder.threads/read-only-in-build_from_reader", where == [GENO_BUILDER + "::build_from_reader"], "", "reads of Builder.threads: %s" % where)
+    g = chk.fn(GENO_BUILDER + "::build_from_reader")
+    if g is not None:
+        wc = an.calls(g, "noodles_bgzf::reader::builder::Builder::set_worker_count")
+        ok = False
+        if len(wc) == 1:
+            sl, info = g.slice_locals(wc[0][1]["args"][1], through_calls=False)
+            ok = (GENO_BUILDER, "threads") in info["fields"]
+        chk.ob("C12.c", "build_from_reader/threads->set_worker_count", ok, g.loc(), "the only sink of `threads` is bgzf::reader::Builder::set_worker_count")
+        sw_dep = []
+        for sb, st in g.switches():
+            prim = lambda l: not (g.local_ty(l) in ("bool", "usize", "u64", "u32", "isize", "i32") or "NonZero" in g.local_ty(l) or g.local_ty(l).startswith("(usize"))
+            sl, info = g.slice_locals(st["discr"], through_calls=True, stop=prim)
+            if (GENO_BUILDER, "threads") in info["fields"]:
+                sw_dep.append(g.loc(sb))
+        chk.ob("C12.c", "build_from_reader/no-branch-on-threads", not sw_dep, g.loc(), "no control decision may depend on the thread count (switches: %s)" % sw_dep)
+
+
+def c12d(chk):
+    prog = chk.prog
+    f = chk.fn(GENO_BUILDER + "::build")
+    if f is not None:
+        cs = an.calls(f, GENO_BUILDER + "::build_from_reader")
+        tys = sorted(" ".join(t["callee"].get("args", [])) for b, t in cs)
+        ok = len(cs) == 2 and any("BufReader<std::fs::File>" in x for x in tys) and any("StdinLock" in x for x in tys)
+        chk.ob("C12.d", "Builder::build/file-and-stdin-share-build_from_reader", ok, f.loc(), "both input::Reader variants call the same generic build_from_reader (instantiations: %s)" % tys)
+        others = [callee_name(t["callee"]) for b, t in f.calls() if t["callee"].get("local") and not callee_is(t["callee"], GENO_BUILDER + "::build_from_reader", "sfs_core::input::Input::open")]
+        chk.ob("C12.d", "Builder::build/no-transport-specific-work", not others, f.loc(), "other workspace calls in build: %s" % others)
+    g = chk.fn(GENO_BUILDER + "::build_from_reader")
+    if g is not None:
+        news = [(b, callee_name(t["callee"])) for b, t in g.calls() if (t["callee"].get("path") or "").endswith("Reader::<R>::new") and t["callee"].get("local")]
+        kinds = sorted(n.split("::reader::")[-1].split("::")[0] for b, n in news)
+        chk.ob("C12.d", "build_from_reader/four-arms-two-readers", kinds == ["bcf", "bcf", "vcf", "vcf"], g.loc(),
+               "the (compression x format) arms construct only bcf::Reader::new / vcf::Reader::new (found %s)" % kinds)
+        # every Reader::new result is boxed and `?`-propagated; detect() results `?`-propagated
+        det = an.calls(g, "sfs_core::input::genotype::reader::builder::CompressionMethod::detect") + an.calls(g, "sfs_core::input::genotype::reader::builder::Format::detect")
+        ok = len(det) == 2 and all(an.try_branch_of(g, b) is not None for b, t in det)
+        chk.ob("C12.d", "build_from_reader/detection-errors-propagate", ok, g.loc(), "compression/format detection results go through `?`")
+        # explicit settings bypass detection symmetrically: detect is called only on the None edge of the corresponding option
+        for b, t in det:
+            nm = callee_name(t["callee"]).split("::")[-2]
+            fld = "compression_method" if nm == "CompressionMethod" else "format"
+            ok = False
+            for sb, st in g.switches():
+                s = an.switch_subject(g, sb)
+                if s["kind"] == "discr" and s["place"] and an.owned_self_field(s["place"]) == fld:
+                    ok = ok or an.dominated_by_edge(g, sb, an.edge_target(st, 0), b)
+            chk.ob("C12.d", "build_from_reader/%s::detect-only-when-unset" % nm, ok, g.loc(b), "detection runs only when the builder field `%s` is None" % fld)
+    # classification funnel shared (C08.d)
+    c08 = [i for i in prog.impls if i.get("trait") and i["trait"]["path"] == "sfs_core::input::genotype::reader::Reader"]
+    chk.ob("C12.d", "genotype::Reader/two-impls-one-classifier", len(c08) == 2, "", "vcf and bcf readers are the only implementations; both map through genotype::Result::from (checked by C08.d)")
